@@ -25,7 +25,7 @@ Definition has_enabled_tests (inh : bool) (s : suite) : bool :=
 
 (* build_suite_initialization_task returns a task *)
 Definition needs_init (si : sinfo) (force : bool) (inh : bool) (p : path) (s : suite) : bool :=
-  (has_enabled_tests inh s || force) &&
+  (has_enabled_tests inh s || (force && non_empty (su_tests s))) &&
   (si_suite si inh s || non_empty (su_injected s) ||
    is_some (h_setup_suite (su_hooks s)) || is_some (h_teardown_suite (su_hooks s))).
 
